@@ -45,6 +45,8 @@ def enc_sym(x):
     if hasattr(x, "item") and hasattr(x, "dtype"):  # numpy scalar
         return enc_sym(x.item())
     if isinstance(x, float) and x == int(x):
+        if TOKEN_WRAP == "float":
+            return int(x)       # the descriptor's integer token, handed to the library as a float
         return {"t": "float", "a": [int(x)]}
     # frozendict (determinize) and anything else: opaque but deterministic
     try:
@@ -54,8 +56,19 @@ def enc_sym(x):
         return {"t": "repr", "a": [repr(x)]}
 
 
+# set per case by impl_worker (`case["token_type"]`): integer symbols of the descriptor are handed to the library as numpy
+# integers / floats — token ids that EQUAL (and hash like) Python ints without being `int` instances
+TOKEN_WRAP = None
+
+
 def dec_sym(j):
     """JSON -> Python name (inverse of enc_sym on what the library creates)."""
+    if isinstance(j, int) and not isinstance(j, bool) and TOKEN_WRAP:
+        if TOKEN_WRAP == "npint":
+            import numpy as np
+            return np.int64(j)
+        if TOKEN_WRAP == "float":
+            return float(j)
     if isinstance(j, (str, int)) and not isinstance(j, bool):
         return j
     if j is None:
